@@ -82,7 +82,7 @@ CHECKS["C19"] = {
 CHECKS["C20"] = {
     "text": "spec/Kp.tla models kp as a state machine (reader over the file arguments and stdin, skipping of blank lines and comments, 1-4 columns with defaults 0/0/0/NaN or -z/-t, sexagesimal notation, batcher with the batch size as a constant, transformer fwd/--inv/--roundtrip, formatter -d/-D, exit status). TLC checks, for every enumerated shape and for B = 3 and 4/5: one output line per coordinate line in input order, nothing lost or duplicated at any step, output identical to the chunk-wise program for every chunk size and independent of the split over files, a batch is never transformed empty, empty input ends normally without output, refused operation / missing file end with an error. Every shape is instantiated with the real batch size 25000, run through the kp binary built from the working tree, and stdout is compared line by line with the library's in-process result for the tuple the specification assigns to that line, together with exit status and stderr.",
     "design_ref": "DESIGN.md §5.20",
-    "note": "Shapes: coordinate counts k*25000+r (k 0..2, r in {0,1,24999}), blank/comment lines in every gap relative to a batch boundary, splits over 1-3 files and stdin at every item position, 192+12 option sets, 8 column/notation mixtures, 3 refused operations, missing file at every argument position; quick 393, thorough 3945 shapes. The library is the numeric oracle (addone, helmert translation, noop compared to the digit; geo:in|utm within 2.5 units of the last place). Not compared: output without -d or -D (line count only), an element present in the input while -z/-t is given, sign of roundtrip residuals, stdout of failing runs, more than 4 columns.",
+    "note": "Shapes: coordinate counts k*25000+r (k 0..2, r in {0,1,24999}), blank/comment lines in every gap relative to a batch boundary, splits over 1-3 files and stdin at every item position, 192+12 option sets, 8 column/notation mixtures, 3 refused operations, missing file at every argument position; quick 393, thorough 3945 shapes. The library is the numeric oracle (addone, helmert translation, noop compared to the digit; geo:in|utm within 2.5 units of the last place). Family F: valid operations with a domain limit (tmerc, laea), lines outside the domain at every batch-relative position; the exit status is not compared when tuples fail, and under --roundtrip an error end with a correct output prefix is admitted. Not compared: output without -d or -D (line count only), an element present in the input while -z/-t is given, sign of roundtrip residuals, stdout of failing runs, more than 4 columns.",
     "technique": "TLA+ spec + TLC exhaustive enumeration of shapes; shapes scaled to the real batch size and replayed through the real binary with the library in-process as oracle",
 }
 
@@ -135,7 +135,7 @@ CHECKS["C13"] = {
 CHECKS["C10"] = {
     "text": "spec/Catalogue.tla: one row per built-in operator parameterisation (78 rows over all 36 built-in names) with the coordinate elements it reads and writes, the dependency of outputs on inputs, invertibility, declared domain limits and representative points inside / far outside / at the edge / outside grid coverage with a null grid; an abstract semantics (per element same | new | nan | any, per tuple counted yes | no | either) predicting the admissible outcomes for operator x direction x domain class x NaN mask (all 16), for whole sets, and - by composing the per-step transformers with stack depth and min-count - for pipelines with inv and omit_*. TLC checks the sanity of the abstract semantics (count <= n, uncounted => NaN somewhere, untouched elements kept, forced NaN propagates, inside => counted, outside => not counted, no deviation coincides with the reference). Every case, set and pipeline is replayed on the real operators (results abstracted by bit comparison and is_nan; per-step counts from the step hook).",
     "design_ref": "DESIGN.md §5.10",
-    "note": "quick: 3 216 cases, 156 sets, 14 170 two-step pipelines; thorough: all-rows two-step and three-step pipelines (127 885). Domain classes are decided at representative points only, not across the whole domain. Not compared: which elements carry the NaN of a failed tuple; lcc/somerc non-convergence (no representative point); operators that declare no limit have no 'outside' class.",
+    "note": "quick: 3 216 cases, 156 sets, 14 170 two-step pipelines; thorough: all-rows two-step and three-step pipelines (127 885). Domain classes are decided at representative points only, not across the whole domain. Stack steps (underflow, swap on < 2 elements, the undocumented drop, deprecated push/pop) are covered by replaying the stack machine's three-step programs with the honesty clauses only. Not compared: which elements carry the NaN of a failed tuple; lcc/somerc non-convergence (no representative point); operators that declare no limit have no 'outside' class.",
     "technique": "TLA+ abstract-interpretation spec enumerated by TLC; every case, set and pipeline replayed on the real operators; per-step counts from the step hook",
 }
 
